@@ -19,15 +19,16 @@ Theorem C20_never_pending_and_queued :
 Proof. exact never_pending_and_queued. Qed.
 Print Assumptions C20_never_pending_and_queued.
 
-(* Clause 2 (pending lists are gap-free from the account nonce) does NOT hold
-   for the code as it is: listed finding pending-gap-after-partial-reinject
+(* Clause 2 (pending lists are gap-free from the account nonce) did NOT hold
+   for demoteUnexecutables as it was before commit c78f52f (model: gapfix =
+   false): finding pending-gap-after-partial-reinject
    (fixes/C20_pending_gap_after_partial_reinject.md); witness [ex_ops] of Spec.v *)
 Theorem C20_pending_gapfree_refuted :
   ~ (forall c genesis ops, pending_gapfree (run (new_pool c genesis) ops)).
 Proof. exact gapfree_refuted. Qed.
 Print Assumptions C20_pending_gapfree_refuted.
 
-(* Clause 3, unconditional (the listed finding does not touch it): at all
+(* Clause 3, for the old and the repaired code alike: at all
    times every pooled transaction - pending or queued - is not stale,
    affordable from the sender's balance and within the block gas limit of the
    head the pool works on. *)
@@ -36,7 +37,8 @@ Theorem C20_pooled_valid :
 Proof. exact pooled_valid_all_histories. Qed.
 Print Assumptions C20_pooled_valid.
 
-(* Clauses 2, 4, 5 hold for every history in which the ghost flag stays down,
+(* For the code before the repair (any gapfix): clauses 2, 4, 5 hold for every
+   history in which the ghost flag stays down,
    i.e. in which demoteUnexecutables never leaves a pending list that has its
    front (the account nonce) but a hole further up - the one code location of
    the listed finding.  Any other way of producing a gap, a queued transaction
@@ -50,8 +52,9 @@ Theorem C20_pending_gapfree_holds_outside :
 Proof. exact gapfree_holds_outside. Qed.
 Print Assumptions C20_pending_gapfree_holds_outside.
 
-(* ... and unconditionally for the repaired demoteUnexecutables
-   (fixes/C20_pending_gap_after_partial_reinject.diff = the model's gapfix branch) *)
+(* ... and unconditionally for the repaired demoteUnexecutables that is now in
+   /repo (commit c78f52f = the model's gapfix branch; the harness checks on
+   every run that the working tree behaves as that branch) *)
 Theorem C20_state_clauses_after_repair :
   forall c genesis ops,
     gapfix c = true ->
@@ -68,9 +71,10 @@ Print Assumptions C20_pending_api_exact.
 
 (* Data-race clause (partial): on the method table regenerated from
    core/tx_pool.go, every entry point of TxPool (exported method or goroutine
-   body) other than the listed latent one touches the shared fields only inside
+   body) touches the shared fields only inside
    a pool.mu critical section, i.e. every concurrent execution is an
-   interleaving of the critical sections that are the model's ops. *)
+   interleaving of the critical sections that are the model's ops
+   (known_unlocked_entries is empty since commit 94b8c45). *)
 Theorem C20_lock_discipline :
   forall e, In e c20_methods -> is_entry e = true ->
             needs_lock (List.length c20_methods) c20_methods e = false \/ In (e_name e) known_unlocked_entries.
@@ -100,7 +104,7 @@ Proof. vm_compute. repeat split. Qed.
 Print Assumptions C20_nonvacuous_repair.
 
 (* the hypothesis of C20_pending_gapfree_holds_outside is met by a non-trivial
-   reachable state of the code as it is (head change, 5 submissions, a gapped one) *)
+   reachable state of the unrepaired model (head change, 5 submissions, a gapped one) *)
 Example C20_nonvacuous_holds_outside :
   let p := run (new_pool (ex_cfg false) ex_genesis) (firstn 3 ex_ops) in
   gap_seen p = false /\ map t_nonce (sort_nonce (held (pending p) 0)) = [5; 6; 7] /\
